@@ -13,13 +13,13 @@ theorem unsafe_isSpace : ∀ c, isUnsafeUrlChar c = true → isSpace c = true :=
   rcases h with (h | h) | h <;> (rw [h]; decide)
 
 theorem segChar_spec {c : Char} (h : segChar c = true) :
-    c ≠ '/' ∧ c ≠ '?' ∧ c ≠ '#' ∧ c ≠ ';' ∧ isUnsafeUrlChar c = false := by
+    c ≠ '/' ∧ c ≠ '?' ∧ c ≠ '#' ∧ isUnsafeUrlChar c = false := by
   unfold segChar at h
   simp only [Bool.and_eq_true, decide_eq_true_eq, Bool.not_eq_true'] at h
-  exact ⟨h.1.1.1.1, h.1.1.1.2, h.1.1.2, h.1.2, h.2⟩
+  exact ⟨h.1.1.1, h.1.1.2, h.1.2, h.2⟩
 
 theorem segChar_pathChar {c : Char} (h : segChar c = true) : pathChar c = true := by
-  obtain ⟨_, h2, h3, _, h5⟩ := segChar_spec h
+  obtain ⟨_, h2, h3, h5⟩ := segChar_spec h
   simp [pathChar, h2, h3, h5]
 
 theorem segOk_spec {s : Str} (h : segOk s = true) :
@@ -30,9 +30,6 @@ theorem segOk_spec {s : Str} (h : segOk s = true) :
 
 theorem segOk_not_mem_slash {s : Str} (h : segOk s = true) : '/' ∉ s :=
   fun hm => (segChar_spec ((segOk_spec h).2.1 _ hm)).1 rfl
-
-theorem segOk_not_mem_semi {s : Str} (h : segOk s = true) : ';' ∉ s :=
-  fun hm => (segChar_spec ((segOk_spec h).2.1 _ hm)).2.2.2.1 rfl
 
 /-! ## the path with segments `segs`: `"/" + "/".join(segs)` -/
 
@@ -75,12 +72,6 @@ theorem slashed_pathChar (segs : List Str) (h : ∀ s ∈ segs, segOk s = true) 
   rcases mem_slashed hc with hc | ⟨s, hs, hc⟩
   · rw [hc]; decide
   · exact segChar_pathChar ((segOk_spec (h s hs)).2.1 c hc)
-
-theorem slashed_no_semi (segs : List Str) (h : ∀ s ∈ segs, segOk s = true) : ';' ∉ slashed segs := by
-  intro hc
-  rcases mem_slashed hc with hc | ⟨s, hs, hc⟩
-  · exact absurd hc (by decide)
-  · exact segOk_not_mem_semi (h s hs) hc
 
 /-- non-empty slash-free segments, each preceded by one slash: no `//` -/
 theorem slashed_noDbl (segs : List Str) (hne : ∀ s ∈ segs, s ≠ []) (hsl : ∀ s ∈ segs, '/' ∉ s) :
